@@ -7,6 +7,7 @@ import (
 	"io"
 	"net/http"
 	"sort"
+	"strconv"
 	"strings"
 	"testing"
 
@@ -190,10 +191,10 @@ func clientOutcome(o *CallObs) outcome {
 		if errors.As(o.Final, &ce) {
 			out.Code = ce.Code()
 			out.Details = len(ce.Details())
-			out.Meta = hdrString(ce.Meta(), "Date")
+			out.Meta = hdrString(ce.Meta(), "Date", "Content-Length")
 		}
 	}
-	out.Header = hdrString(o.RespHeader, "Date")
+	out.Header = hdrString(o.RespHeader, "Date", "Content-Length")
 	out.Trailer = hdrString(o.RespTrailer)
 	return out
 }
@@ -260,6 +261,9 @@ type recorded struct {
 	writes   int
 	client   outcome
 	handler  outcome
+	// declLen: the peer that re-delivers complete bodies declares their length
+	// (Content-Length), as peers other than connect-go's client do
+	declLen bool
 }
 
 func record(t *core.Tape, sc *Scenario, r *RunResult) *recorded {
@@ -304,7 +308,11 @@ func (rec *recorded) clientRedelivery(body []byte, endErr error, trailer http.He
 		p.K.DownScript = []int{}
 	}
 	p.K.DownEOFData = eofWithData
-	p.Canned = &simhttp.Canned{Status: rec.status, Header: rec.respHdr.Clone(), Body: body, Trailer: trailer, EndErr: endErr}
+	hdr := rec.respHdr.Clone()
+	if rec.declLen && len(body) == len(rec.respBody) {
+		hdr.Set("Content-Length", strconv.Itoa(len(body)))
+	}
+	p.Canned = &simhttp.Canned{Status: rec.status, Header: hdr, Body: body, Trailer: trailer, EndErr: endErr}
 	sc := *rec.sc
 	sc.Calls = []*CallPlan{&p}
 	return &sc
@@ -321,7 +329,11 @@ func (rec *recorded) handlerRedelivery(body []byte, endErr error, script []int, 
 		p.K.UpScript = []int{}
 	}
 	p.K.UpEOFData = eofWithData
-	p.Raw = &RawReq{Method: "POST", Header: rec.reqHdr.Clone(), Body: body, EndErr: endErr}
+	hdr := rec.reqHdr.Clone()
+	if rec.declLen && len(body) == len(rec.reqBody) {
+		hdr.Set("Content-Length", strconv.Itoa(len(body)))
+	}
+	p.Raw = &RawReq{Method: "POST", Header: hdr, Body: body, EndErr: endErr}
 	sc := *rec.sc
 	sc.Calls = []*CallPlan{&p}
 	return &sc
@@ -423,6 +435,10 @@ func directC03(tt *testing.T, tape *core.Tape, tier string, r *RunResult) {
 	}
 	r.Status = "done"
 	enveloped := !(rec.proto == PConnect && rec.plan.Kind == KUnary)
+	if !enveloped && tape.Bool(1, 2, "declare.length") {
+		rec.declLen = true
+		r.Probes["bodies_with_declared_length"]++
+	}
 	tag := protoTag(rec)
 	addV := func(class, msg string) {
 		if len(r.Violations) < 4 {
